@@ -441,6 +441,11 @@ func genSystematic() []*Case {
 			mk("sys-operands", []string{a, b}, simple)
 		}
 	}
+	// hostile operand shapes
+	for _, a := range []string{"g1=a\nb", "g2=\nq", "=x", "1a=2", "g1", "g0==", "nx", "g3=\\", "g0=a\\tb\\\\c\\101\\/"} {
+		mk("sys-operands-hostile", []string{a, "f1"}, simple)
+		mk("sys-operands-hostile", []string{"f2", a, "f1"}, simple)
+	}
 	for _, nav := range []bool{true} {
 		c := mk("sys-operands", []string{"g0=1", "f1"}, simple)
 		c.NoArgVars = nav
